@@ -171,7 +171,7 @@ func runC15(r *Run) {
 		f()
 	}
 	only := os.Getenv("VERIF_C15_PARTS") // debugging aid: comma separated part indices
-	for i, f := range []func(*Run){c15DecisionProbes, c15Instances, c15Matrix, c15Failures, c15ProvisionCases, c15CleanupInterference} {
+	for i, f := range []func(*Run){c15DecisionProbes, c15Instances, c15Matrix, c15Failures, c15FirstLoadFailures, c15ProvisionCases, c15CleanupInterference} {
 		if only != "" && !strings.Contains(","+only+",", fmt.Sprintf(",%d,", i)) {
 			continue
 		}
@@ -699,6 +699,97 @@ func c15Failures(r *Run) {
 	for i := nd; i < len(cases); i++ {
 		runCase(i)
 	}
+}
+
+// c15FirstLoadFailures: a CRL learned from a certificate's distribution point whose FIRST load fails k times (bad
+// answers) before the location delivers an acceptable list: the list must come into force within the bound after
+// the first good answer is available, in both fetch modes, with the issuer known only from the presented chain.
+func c15FirstLoadFailures(r *Run) {
+	type fc struct {
+		fetch, kind string
+		k           int
+		storage     string
+	}
+	var cases []fc
+	maxK := 2
+	if r.Thorough() {
+		maxK = 4
+	}
+	i := 0
+	for _, fetch := range []string{"fetch_background", "fetch_actively"} {
+		for _, kind := range []string{"garbage", "http500", "badsig", "truncated"} {
+			for k := 1; k <= maxK; k++ {
+				cases = append(cases, fc{fetch, kind, k, []string{"memory", "disk"}[i%2]})
+				i++
+			}
+		}
+	}
+	parallel(len(cases), 6, func(i int) {
+		c := cases[i]
+		const I = 300
+		o := NewConcOrigin()
+		defer o.Close()
+		ca := NewCA(CAOpts{CN: fmt.Sprintf("C15 first-load CA %d", i), EC: true})
+		evil := &CA{Cert: ca.Cert, Key: newECKey(), Name: ca.Name}
+		name := fmt.Sprintf("fl%d", i)
+		s := c15NewSource("cdp", name, o, ca, "")
+		good := ca.MakeCRL(CRLOpts{Serials: []*big.Int{s.listed.Cert.SerialNumber}, Number: 2})
+		var bad Behaviour
+		switch c.kind {
+		case "garbage":
+			bad = Behaviour{Kind: "bytes", Body: []byte("<html>maintenance</html>")}
+		case "http500":
+			bad = Behaviour{Kind: "status", Status: 500, Body: []byte("oops")}
+		case "badsig":
+			bad = Behaviour{Kind: "bytes", Body: evil.MakeCRL(CRLOpts{Serials: []*big.Int{s.listed.Cert.SerialNumber}, Number: 2})}
+		case "truncated":
+			bad = Behaviour{Kind: "bytes", Body: good[:len(good)/2]}
+		}
+		var script []Behaviour
+		for j := 0; j < c.k; j++ {
+			script = append(script, bad)
+		}
+		script = append(script, Behaviour{Kind: "bytes", Body: good})
+		o.SetScript(s.path, script)
+		// no trusted signers: the issuer is known from the verified chain of the connection only
+		in, err := c15Provision(r, name, I, c.storage, "verify", c.fetch, nil, o, ca, "")
+		if err != nil {
+			r.Violate("C15 provision-failed", "first-load history: "+err.Error(), nil)
+			return
+		}
+		defer c15Close(in.v)
+		key := fmt.Sprintf("first-load fetch=%s kind=%s k=%d storage=%s", c.fetch, c.kind, c.k, c.storage)
+		// the first handshake makes the location known (and is the first attempt)
+		if vd0, _ := in.v.Verify(c15Chains(s.listed, ca)); vd0 != "accept" {
+			r.Violate("C15 failing-answer-came-into-force kind="+c.kind, key+": the first handshake (bad answer, lenient mode) was not accepted: "+vd0, nil)
+		}
+		t0 := time.Now()
+		// background: attempts 2..k+1 are refresh runs, one per interval at worst; actively: every handshake is an attempt
+		bound := c15Bound(I) + c.k*I + I
+		ok := false
+		var d time.Duration
+		for time.Since(t0) < time.Duration(bound+4000)*time.Millisecond {
+			pause := 4 * time.Millisecond
+			if c.fetch == "fetch_actively" {
+				pause = 40 * time.Millisecond
+			}
+			if vd, _ := in.v.Verify(c15Chains(s.listed, ca)); vd == "reject" && o.Hits(s.path) > c.k {
+				ok, d = true, time.Since(t0)
+				break
+			}
+			time.Sleep(pause)
+		}
+		if !ok || int(d/time.Millisecond) > bound {
+			r.Violate("C15 first-load-not-retried-to-success kind="+c.kind+" fetch="+c.fetch,
+				fmt.Sprintf("%s: after %d failing first loads the acceptable CRL was in force after %d ms (reached %v, %d requests seen; bound %d ms)", key, c.k, d.Milliseconds(), ok, o.Hits(s.path), bound), nil)
+		}
+		if vd, _ := in.v.Verify(c15Chains(s.other, ca)); ok && vd != "accept" {
+			r.Violate("C15 first-load-unlisted-rejected", key+": the unlisted certificate is rejected after the list came into force", nil)
+		}
+		r.Op(fmt.Sprintf("sched inforce %d", c.k), "old,"+map[bool]string{true: "new", false: "old"}[ok])
+		r.Eval("first-load/"+key, true)
+		r.Count("first-load-history:" + c.fetch + "/" + c.kind)
+	})
 }
 
 // ---- (4) Provision ---------------------------------------------------------------------------------
